@@ -1,6 +1,7 @@
 import Glom.Lemmas.C08Main
 import Glom.Lemmas.C08Rebuild
 import Glom.Model.Frames
+import Glom.Spec.InterpFacts
 /-
   C08 — Modes apply exactly to the wrapped spec; Fill and argument mode keep shape.
 
@@ -15,6 +16,10 @@ import Glom.Model.Frames
 -/
 namespace Glom.Props.C08
 open Glom.Interp ScopeAlg
+
+/-- **facts obligation**: the decision logic of the interpreter core extracted from /repo on this
+    run has the shape the model mirrors (`Glom/Spec/InterpFacts.lean`) -/
+theorem c08_facts_wf : c08FactsWF = true := by decide
 
 /-- The ChainMap-of-frames scope glom uses satisfies the lexical-scoping laws; in particular
     `mode (chain owner lastChild) = mode owner`: the next link of a chain is evaluated in the
